@@ -21,7 +21,7 @@ for sid in ids:
             out = subprocess.run([os.path.join(VERIF, 'check'), p, '--no-evidence'], capture_output=True, text=True, cwd=VERIF)
             viol = re.findall(r'^([A-Z][A-Z0-9\-()]*(?:\([^)]*\))?): (.*)$', out.stdout, re.M)
             lines = [l for l in out.stdout.splitlines() if l.startswith('VIOLATION')]
-            rules = sorted({l.split(':')[0] for l in out.stdout.splitlines() if re.match(r'^[A-Z][A-Za-z0-9\-()]+: ', l) and not l.startswith(('VIOLATION', 'KNOWN-FINDING', 'SELFTEST'))})
+            rules = sorted({l.split(':')[0] for l in out.stdout.splitlines() if re.match(r'^[A-Z][A-Za-z0-9_\-()]+: ', l) and not l.startswith(('VIOLATION', 'KNOWN-FINDING', 'SELFTEST'))})
             if out.returncode == 1 and lines:
                 det[p] = dict(exit=1, violations=len(lines), rules=rules)
             elif out.returncode not in (0, 1):
